@@ -195,6 +195,61 @@ static void any_family(vt::rng& g, int count)
     }
 }
 
+// selections at the full precision of T: weights k_i (1 + 2^-(digits-9)) with integers k_i of total S <= 255 (the common factor uses the
+// low bits of the mantissa but does not change the probabilities k_i / S), raw 64-bit outputs r whose canonical number r / 2^64 is exact
+// in T, placed 8, 64 and 1024 units (of the last place of T at one) around every cumulative boundary C_i / S.  The specification decides
+// with exact integer arithmetic on 16-bit limbs which channel owns r / 2^64 (r - 4 units and r + 4 units must agree, else either).
+template <typename T>
+static void wide_family(vt::rng& g, int count)
+{
+    int const digits = std::numeric_limits<T>::digits;
+    int const ushift = 64 - digits;                      // one unit = 2^ushift
+    T const factor = T(1) + std::ldexp(T(1), -(digits - 9));
+    for (int k = 0; k != count; ++k)
+    {
+        int n = (int) g.range(2, 6);
+        std::vector<int> w((std::size_t) n, 0);
+        int S = 0;
+        for (int i = 0; i != n; ++i) if (g.below(4) != 0) { w[(std::size_t) i] = (int) g.range(1, 40); S += w[(std::size_t) i]; }
+        if (k % 3 == 0) w.back() = 0;
+        S = 0;
+        for (int x : w) S += x;
+        if (S == 0) { w[0] = 7; S = 7; }
+        if (S > 255) continue;
+        std::vector<T> wt;
+        for (int x : w) wt.push_back(T(x) * factor);
+        std::vector<std::uint64_t> raws;
+        int c = 0;
+        for (int x : w)
+        {
+            c += x;
+            if (x == 0 || c == S) continue;
+            unsigned __int128 b = ((unsigned __int128) c << 64) / (unsigned) S;
+            std::uint64_t rb = ((std::uint64_t) b >> ushift) << ushift;
+            for (long long d : {-1024LL, -64LL, -8LL, 8LL, 64LL, 1024LL})
+            {
+                std::uint64_t r = rb + (std::uint64_t) (d * (1LL << ushift));
+                raws.push_back(r);
+            }
+        }
+        raws.push_back((~0ULL >> ushift) << ushift); // the largest value below one
+        raws.push_back(8ULL << ushift);
+        vt::script_engine e(vt::script_registry::add(raws));
+        hep::discrete_distribution<std::size_t, T> d(wt.begin(), wt.end());
+        std::string cases = "[";
+        for (std::size_t i = 0; i != raws.size(); ++i)
+        {
+            long long idx = (long long) d(e);
+            std::uint64_t base = raws[i] - (4ULL << ushift);
+            cases += std::string(i ? "," : "") + "[" + std::to_string(base & 0xffff) + "," + std::to_string((base >> 16) & 0xffff) + "," +
+                std::to_string((base >> 32) & 0xffff) + "," + std::to_string((base >> 48) & 0xffff) + "," + std::to_string(idx) + "]";
+        }
+        cases += "]";
+        vt::ev("PickWide").s("T", vt::type_name<T>::get()).a("w", w).i("ushift", ushift).raw("cases", cases).i("draws", (long long) e.pos())
+            .i("n", (long long) raws.size()).emit();
+    }
+}
+
 static bool dyadic_sum(std::vector<int> const& w)
 {
     int S = 0;
@@ -241,6 +296,7 @@ int main(int argc, char** argv)
         }
     }
     raw_family(g, thorough ? 1500 : 300);
+    wide_family<float>(g, thorough ? 1000 : 200); wide_family<double>(g, thorough ? 1000 : 200); wide_family<long double>(g, thorough ? 1000 : 200);
     any_family<float>(g, thorough ? 3000 : 600); any_family<double>(g, thorough ? 3000 : 600); any_family<long double>(g, thorough ? 3000 : 600);
     vt::out().close();
     return 0;
